@@ -657,6 +657,12 @@ func (ev *evaluator) call(x ECall) *Val {
 	case "ref":
 		a := ev.eval(x.Args[0])
 		return intVal(ev.asRef(a))
+	case "strBytes": // []byte(s)
+		a := ev.eval(x.Args[0])
+		if a.S != SStr {
+			return ev.fail("strBytes of non-string")
+		}
+		return &Val{T: types.NewSlice(types.Universe.Lookup("byte").Type()), S: SBytes, Tm: "(bytes_of_str " + a.Tm + ")"}
 	case "asSlice": // asSlice(ifaceval, "[]T"): the slice boxed in an interface value
 		a := ev.eval(x.Args[0])
 		sv, ok := x.Args[1].(EStr)
@@ -764,6 +770,16 @@ func (ev *evaluator) addrOf(v *Val) string {
 func (ev *evaluator) resolveType(s string) types.Type {
 	ptr := strings.HasPrefix(s, "*")
 	s = strings.TrimPrefix(s, "*")
+	if !strings.Contains(s, ".") {
+		if obj := types.Universe.Lookup(s); obj != nil {
+			if tn, ok := obj.(*types.TypeName); ok {
+				if ptr {
+					return types.NewPointer(tn.Type())
+				}
+				return tn.Type()
+			}
+		}
+	}
 	var pkg *types.Package
 	name := s
 	if i := strings.LastIndex(s, "."); i >= 0 {
@@ -804,6 +820,9 @@ func (vf *VerifyFunc) checkPost(st *State, fr *Frame, rs []*Val, in ssa.Instruct
 		return
 	}
 	env := map[string]*Val{}
+	for k, v := range fr.vars {
+		env[k] = v // local variables (by source name) are visible in postconditions
+	}
 	for k, v := range vf.env {
 		env[k] = v
 	}
